@@ -21,6 +21,10 @@ CHECKS = {
  'C10': ('exploration', 'runtime monitor: round-trip oracle on the real writer/reader pair with representability decided by an independent reference dialect; exhaustive small tables x dialects, random tables, all-256-byte latin-1 table, file-to-file leg, JS leg',
          'Every small table over the special-character alphabet is written by the real CSVWriter and read back by the real CSVRecordIterator in every dialect; lossy-output warnings are asserted on every non-representable write; held on the tables observed.',
          'Trusted: rv/model/refcsv.py writer/reader pair as the definition of representable.', 'DESIGN.md#c10'),
+
+ 'C20': ('exploration', 'runtime monitor: differential oracle inside the node driver (stream reader under prescribed Buffer chunkings vs bulk reader on the same bytes), exhaustive chunkings of small inputs and of multi-byte UTF-8 samples, real fs.createReadStream around the 64 KiB boundary',
+         'Every chunking of every small input is fed to the real JS CSVRecordIterator through an instrumented Readable that logs the chunks it emitted, and compared with bulk reading; held on the chunkings observed.',
+         'Trusted: the bulk reader as reference for the file content (tied to the Python reader by C18); stuck detection counts event-loop turns, not wall clock.', 'DESIGN.md#c20'),
 }
 
 NOT_YET = 'check not registered yet (machinery under construction; see DESIGN.md section 3a build order)'
